@@ -486,6 +486,11 @@ func (y *c18L2Sys) ops() []c18L2Op {
 			p.BridgeExecutors = []string{world.Addr("e1").String(), world.Addr("e2").String(), world.Addr("e3").String(), world.Addr("e1").String()}
 			return opchildtypes.NewMsgUpdateParams(w.Authority, &p)
 		}, "msg"},
+		{"UpdateParams(fee whitelist=[e1,e2,e3,alice])", func(w *world.L2, ctx sdk.Context) sdk.Msg {
+			p, _ := w.K.GetParams(ctx)
+			p.FeeWhitelist = []string{world.Addr("e1").String(), world.Addr("e2").String(), world.Addr("e3").String(), world.Addr("alice").String()}
+			return opchildtypes.NewMsgUpdateParams(w.Authority, &p)
+		}, "msg"},
 		{"UpdateOracle(3 voters)", nil, "oracle"},
 		// every pair priced by everyone, under the newest stored timestamp: pairs that have no price yet
 		// are writable, the others are stale — the update is rejected part-way through its write loop
@@ -730,6 +735,10 @@ func newC18Stats() *c18Stats { return &c18Stats{sites: map[string]int{}} }
 
 func init() {
 	register(&Check{ID: "C18", Level: "model_checking", FreshProcessReplay: true,
+		SameFinding: func(found, replayed string) bool {
+			fam := map[string]bool{"same-node-repeats-itself": true, "independent-node-agrees": true, "restarted-node-agrees": true, "result-independent-of-map-iteration-order": true}
+			return fam[found] && fam[replayed]
+		},
 		Run: func(rc *engine.RunCtx) *engine.Result {
 			res := engine.NewResult()
 			c18Census(res, rc.Known.Matcher(rc.Property))
